@@ -99,6 +99,17 @@ class Ops:
                 return (a and b) if isinstance(op, ast.BitAnd) else (a or b)
             f = z3.And if isinstance(op, ast.BitAnd) else z3.Or
             return mk(f(z3bool(a), z3bool(b)))
+        if isinstance(a, (set, frozenset)) and isinstance(b, (set, frozenset)) \
+                and all(isinstance(x, (str, int, tuple)) for x in a | b):
+            # sets of concrete hashable members
+            if isinstance(op, ast.BitOr):
+                return a | b
+            if isinstance(op, ast.BitAnd):
+                return a & b
+            if isinstance(op, ast.Sub):
+                return a - b
+            if isinstance(op, ast.BitXor):
+                return a ^ b
         if not (_is_scalar(a) and _is_scalar(b)):
             raise Unsupported('binop %s on %r, %r' % (type(op).__name__,
                                                       type(a), type(b)))
